@@ -426,6 +426,49 @@ def run(F, rep, tier):
                 else:
                     rep.ok('R17.7', '%s -> %s' % (w.rsplit('::', 1)[-1], c.target.rsplit('::', 1)[-1]), 'argument is the wrapper\'s own parameter / element')
     rep.floor('R17.7', 'wrapper calls into the freeze family', n7, 8)
+    # ---------------- R17.9
+    rep.rule('R17.9', 'a bare `_` is accepted only where evaluation can turn it into a section: the underscore-tolerant wrappers are called from the '
+             'Index, Update, Chain, Call and List arms of freeze, from freeze_ios (index position) and from each other - not from the generic optional / '
+             'boxed child wrappers, which would let `if (c) 1 else _`, `return _`, `{: _}` pass freeze and fail (or misbehave) only when run')
+    ALLOWED_ARMS = {'Index', 'Update', 'Chain', 'Call', 'List'}
+    n9 = 0
+    bad9 = []
+    for p_ in sorted(F.bodies_raw):
+        if '::promoted' in p_:
+            continue
+        b_ = F.body(p_)
+        for c in b_.calls:
+            if not c.target.endswith('_underscore_ok'):
+                continue
+            n9 += 1
+            owner = p_
+            while owner in F.closure_parent:
+                owner = F.closure_parent[owner]
+            if owner == fz:
+                arm_names = set()
+                if p_ == fz:
+                    for v, regn in fregions.items():
+                        if c.bb in regn:
+                            arm_names.add(v)
+                else:
+                    # a closure created inside an arm of freeze
+                    for v, regn in fregions.items():
+                        if any(s_[2][1] == 'closure' and (s_[2][2] == p_ or F.closure_parent.get(p_) == s_[2][2]) for bb, s_ in fb.aggregates(regn)):
+                            arm_names.add(v)
+                if arm_names and arm_names <= ALLOWED_ARMS:
+                    continue
+                if not arm_names:
+                    continue        # could not attribute the closure: not decided
+                bad9.append((owner + '@' + ','.join(sorted(arm_names)), c))
+            elif owner.rsplit('::', 1)[-1] in ('freeze_ios', 'vec_box_freeze_underscore_ok', 'box_freeze_underscore_ok'):
+                continue
+            else:
+                bad9.append((owner, c))
+    if bad9:
+        rep.viol('R17.9', '%s|underscore-tolerant' % bad9[0][0], '%s freezes a child through the underscore-tolerant wrapper: a bare `_` in that position (an else branch, a return value, a dict default ...) no longer fails at freeze time' % bad9[0][0], bad9[0][1].loc())
+    else:
+        rep.ok('R17.9', 'underscore-tolerant wrappers', '%d call site(s), all in section positions' % n9)
+    rep.floor('R17.9', 'calls of the underscore-tolerant wrappers', n9, 6)
     # ---------------- R17.8
     rep.rule('R17.8', 'the constant fold of unary minus computes what evaluation computes: freeze folds `-c` with Neg::neg on the number, and the '
              'one-argument path of the `-` builtin (Minus::run1, and the one-argument arm of Minus::run) negates with the same operation - not '
